@@ -26,6 +26,14 @@ FOCI9 = [
 ]
 if N >= 9:
     FOCI = FOCI9
+FOCI11 = [
+ "observability or diagnostics added to the code path: logging of values or messages, metrics counters, tracing spans, debug dumps, error context enrichment - whose implementation touches the data or the control flow it observes",
+ "resource-usage tuning: buffer sizes, pre-allocation, pooling with sync.Pool, lazy initialisation, freeing or shrinking memory earlier, limiting concurrency - changing when something is created, reset or released",
+ "making behaviour configurable: a hard-coded constant or behaviour becomes an option / field with a default; or two options are unified; the default or the interaction of two settings is subtly off",
+ "a compatibility shim for a specific client or driver (psql, libpq, pgx, lib/pq, JDBC, an ORM): special-casing something that client sends or expects, in a way that also catches other traffic",
+]
+if N >= 11:
+    FOCI = FOCI11
 props = [json.loads(l) for l in open('/verif/properties.jsonl')]
 earlier = {}
 for f in sorted(glob.glob('/verif/seeded/*/meta.json')):
